@@ -117,30 +117,33 @@ Print Assumptions bare_splice_pushes_all.
 
 (* ---- macros (modelled: GenerateCallBySymbol's macro branch with Duplicate/Apply for macros
    whose body is a template; the rest of the generator is the section variable [generate]) *)
-Theorem expansion_is_substitution : forall eval_in dup m args,
+Theorem expansion_is_substitution : forall eval_in mt dup m args,
     length args = length (m_params m) ->
     wf (m_body m) = true -> is_splice (m_body m) = false ->
-    hshort (macro_rho eval_in dup m args) (m_body m) = true ->
-    expand_in eval_in dup m args =
-    match subst (macro_rho eval_in dup m args) (m_body m) with Ok v => Some v | Err => None end.
+    hshort (macro_rho eval_in mt dup m args) (m_body m) = true ->
+    expand_in eval_in mt dup m args =
+    match subst (macro_rho eval_in mt dup m args) (m_body m) with Ok v => Some v | Err => None end.
 Proof. exact TemplProofs.expansion_is_substitution. Qed.
 Print Assumptions expansion_is_substitution.
 
 Theorem param_is_argument_form : forall eval_in,
-    (forall sc s, eval_in sc (VSym s) = lookup s sc) ->
-    forall dup m args p a,
+    (forall mt sc s, eval_in mt sc (VSym s) = lookup s sc) ->
+    forall mt dup m args p a,
     lookup p (combine (m_params m) args ++ global_of dup) = Some a ->
-    elems (macro_rho eval_in dup m args) (TUnq (VSym p)) = Ok [a].
+    elems (macro_rho eval_in mt dup m args) (TUnq (VSym p)) = Ok [a].
 Proof. exact TemplProofs.param_is_argument_form. Qed.
 Print Assumptions param_is_argument_form.
 
 Theorem macro_call_is_expansion : forall eval_in gctx generate other_call macros (ctx : gctx) st s args m e,
     macros s = Some m ->
-    expand_in eval_in (duplicate st) m args = Some e ->
+    expand_in eval_in macros (duplicate st) m args = Some e ->
     gen_call eval_in gctx generate other_call macros ctx st s args = (st, generate ctx e).
 Proof. exact TemplProofs.macro_call_is_expansion. Qed.
 Print Assumptions macro_call_is_expansion.
 
+(* [eval_in macros sc e]: the duplicate evaluates the unquoted expressions with the CALLER's macro
+   table (shared, not copied and not empty): macros used in argument position inside a macro
+   body, macros defined later, macros defined by a body, are the caller's *)
 (* the code of a macro call is the code -- in the SAME generator context ctx (scopes to leave for
    break/continue/tail jumps, Tail, funcname ..) -- of the body's template substituted with the
    argument forms and the caller's CURRENT global scope: recomputed at every call *)
@@ -148,9 +151,9 @@ Theorem macro_call_is_substitution : forall eval_in gctx generate other_call mac
     macros s = Some m ->
     length args = length (m_params m) ->
     wf (m_body m) = true -> is_splice (m_body m) = false ->
-    hshort (macro_rho eval_in (duplicate st) m args) (m_body m) = true ->
+    hshort (macro_rho eval_in macros (duplicate st) m args) (m_body m) = true ->
     gen_call eval_in gctx generate other_call macros ctx st s args =
-    (st, match subst (macro_rho eval_in (duplicate st) m args) (m_body m) with
+    (st, match subst (macro_rho eval_in macros (duplicate st) m args) (m_body m) with
          | Ok e => generate ctx e
          | Err => None
          end).
